@@ -142,7 +142,7 @@ def _den_init_cases():
         yield 'types=%d' % n, build, {'post': lambda f, args, res: inv_density(f, args['self'])}
 
 
-@contract('pyPRISM/core/Density.py::Density.__setitem__', props=['C15', 'C04'])
+@contract('pyPRISM/core/Density.py::Density.__setitem__', props=['C15', 'C04', 'C16'])
 def Density_setitem(self, types1, value):
     K = self.density.listify(types1)
     if len(K) == 0:
@@ -231,7 +231,7 @@ def _dia_init_cases():
         yield 'types=%d' % n, build, {'post': lambda f, args, res: inv_diameter(f, args['self'])}
 
 
-@contract('pyPRISM/core/Diameter.py::Diameter.__setitem__', props=['C15', 'C10'])
+@contract('pyPRISM/core/Diameter.py::Diameter.__setitem__', props=['C15', 'C10', 'C16'])
 def Diameter_setitem(self, types1, value):
     K = self.diameter.listify(types1)
     for t in K:
